@@ -1185,15 +1185,22 @@ impl Runner {
                         }
                         let rt = snap.reftable_offset.unwrap_or(0) as usize;
                         let mut used = Vec::new();
+                        let mut multi = Vec::new();
                         for c in 0..*n {
                             let e = rt + (c / g.rbn()) * 8;
                             let rb = if img.len() >= e + 8 { (u64::from_be_bytes(img[e..e + 8].try_into().unwrap()) & !0x1ff) as usize } else { 0 };
-                            if rb != 0 && img.len() >= rb + g.cs() && refcount_at(&img[rb..rb + g.cs()], c % g.rbn(), g.ro) != 0 {
-                                used.push(c);
+                            if rb != 0 && img.len() >= rb + g.cs() {
+                                let v = refcount_at(&img[rb..rb + g.cs()], c % g.rbn(), g.ro);
+                                if v != 0 {
+                                    used.push(c);
+                                }
+                                if v > 1 {
+                                    multi.push(c);
+                                }
                             }
                         }
                         drop(w);
-                        self.ev(json!({"e":"Note","msg":"rcdump","used": used, "hint": ev["hint"]}));
+                        self.ev(json!({"e":"Note","msg":"rcdump","used": used, "multi": multi, "hint": ev["hint"]}));
                     }
                 }
                 Op::MapAll => {
